@@ -228,12 +228,14 @@ def convex_hull(
     # calculate the returned normal of each face
     crosses = triangles.cross(vertices[faces])
 
-    # qhull returns zero magnitude faces like an asshole
-    normals, valid = util.unitize(crosses, check_valid=True)
-
-    # remove zero magnitude faces
-    faces = faces[valid]
-    crosses = crosses[valid]
+    # qhull returns zero magnitude faces: with triangulated output a facet
+    # merged from coplanar points can contain three collinear vertices.
+    # These faces are kept with a zero normal (as `Trimesh.face_normals`
+    # does for degenerate faces) since removing a face which references
+    # three distinct vertices would leave a hole in the hull.
+    unit, valid = util.unitize(crosses, check_valid=True)
+    normals = np.zeros_like(crosses)
+    normals[valid] = unit
 
     # each triangle area and mean center
     triangles_area = triangles.area(crosses=crosses)
